@@ -1195,6 +1195,32 @@ ST_GATE_INV_MAP = {
     "tdg": "t",
 }
 ROTATION_INVERSION_ONE_QUBIT_OP_MAP = {"rx", "ry", "rz"}
+# multi-qubit gates that are their own inverse
+SELF_INVERTING_TWO_QUBIT_OP_SET = {"cx", "CX", "cnot", "cz", "swap", "cy", "ch", "ecr"}
+SELF_INVERTING_THREE_QUBIT_OP_SET = {"ccx", "toffoli", "ccnot", "cswap", "rccx"}
+# two qubit gates whose inverse is the same gate with negated parameters
+ROTATION_INVERSION_TWO_QUBIT_OP_SET = {
+    "xx",
+    "rxx",
+    "yy",
+    "ryy",
+    "zz",
+    "rzz",
+    "xy",
+    "pswap",
+    "cp",
+    "crx",
+    "cry",
+    "crz",
+    "cphaseshift",
+    "cu1",
+    "cp00",
+    "cphaseshift00",
+    "cp01",
+    "cphaseshift01",
+    "cp10",
+    "cphaseshift10",
+}
 U_INV_ROTATION_MAP = {
     "U": u3_inv_gate,
     "u3": u3_inv_gate,
@@ -1220,9 +1246,11 @@ def map_qasm_inv_op_to_callable(op_name: str):
     if op_name in ST_GATE_INV_MAP:
         inv_gate_name = ST_GATE_INV_MAP[op_name]
         return ONE_QUBIT_OP_MAP[inv_gate_name], 1, InversionOp.NO_OP
-    if op_name in TWO_QUBIT_OP_MAP:
+    if op_name in SELF_INVERTING_TWO_QUBIT_OP_SET:
         return TWO_QUBIT_OP_MAP[op_name], 2, InversionOp.NO_OP
-    if op_name in THREE_QUBIT_OP_MAP:
+    if op_name in ROTATION_INVERSION_TWO_QUBIT_OP_SET:
+        return TWO_QUBIT_OP_MAP[op_name], 2, InversionOp.INVERT_ROTATION
+    if op_name in SELF_INVERTING_THREE_QUBIT_OP_SET:
         return THREE_QUBIT_OP_MAP[op_name], 3, InversionOp.NO_OP
     if op_name in U_INV_ROTATION_MAP:
         # Special handling for U gate as it is composed of multiple
